@@ -213,6 +213,19 @@ Definition struct_emitted_fields (fs : list field_spec) : list str :=
   List.map snd (filter (fun p => emitted (fst p)) (combine (named fs) (struct_field_names fs))).
 Definition struct_accessor_names (fs : list field_spec) : list str := snd (struct_scope fs).
 
+(** A function gets one more accessor family (end of qt_struct.qtpl's function section): for every
+    bit of a request field that masks fields of the RESULT type,
+      Set<Go name of the affected type><field1>And<field2>...(value bool)
+    These names are NOT passed through fieldsDec. *)
+Fixpoint join_and (l : list str) : str :=
+  match l with
+  | [] => []
+  | [x] => x
+  | x :: r => x ++ lit "And"%string ++ join_and r
+  end.
+Definition result_accessor (affected_go : str) (field_gos : list str) : str :=
+  lit "Set"%string ++ affected_go ++ join_and field_gos.
+
 (** methods of a generated struct type (qt_struct.qtpl).  [struct_methods_always]: emitted for
     every struct; [struct_methods_closed]: every struct without nat parameters has them as
     well; [struct_methods]: everything a struct may get (TL2 / random / union element /
@@ -276,6 +289,11 @@ Definition dirs_ok (names : list tlname) : bool :=
     [ms] generated for the struct *)
 Definition fields_ok (ms : list str) (fs : list field_spec) : bool :=
   forallb (fun n => negb (mem n ms)) (struct_emitted_fields fs ++ struct_accessor_names fs).
+
+(** (e) the methods of one struct are declared once: deconflicted accessors and the result-mask
+    accessors of a function do not clash *)
+Definition methods_ok (fs : list field_spec) (raccs : list str) : bool :=
+  nodupb (struct_accessor_names fs ++ raccs).
 
 (** (d) package internal (no --split-internal): the global type names, unique among
     themselves thanks to gen.globalDec, also avoid the helper identifiers *)
